@@ -215,13 +215,14 @@ func runC08(c *Ctx) {
 	c08Unit(c)
 	type conf struct {
 		keep, always, clean bool
+		grant0              bool // the broker grants QoS 0 whatever was requested (SUBACK return codes differ from the request)
 	}
-	confs := []conf{{true, false, false}, {false, false, false}, {true, true, false}, {true, false, true}}
+	confs := []conf{{true, false, false, false}, {false, false, false, false}, {true, true, false, false}, {true, false, true, false}, {false, false, false, true}}
 	n, f := 2, 1
 	n3 := false
 	if c.Thorough() {
 		n, f = 3, 2
-		confs = append(confs, conf{false, true, false}, conf{false, false, true})
+		confs = append(confs, conf{false, true, false, false}, conf{false, false, true, false}, conf{true, true, false, true})
 	} else {
 		n3 = true
 	}
@@ -231,12 +232,17 @@ func runC08(c *Ctx) {
 	run := func(name string, reqs []rcReq, cf conf, bound vrt.Budget) {
 		var r *rcRun
 		cfgName := fmt.Sprintf("keep=%v always=%v clean=%v", cf.keep, cf.always, cf.clean)
+		var grant *byte
+		if cf.grant0 {
+			cfgName += " broker-grants-qos0"
+			grant = new(byte)
+		}
 		sc := &vrt.Scenario{
 			Name:  fmt.Sprintf("C08/%s/%s/%s", name, strings.ReplaceAll(cfgName, " ", ","), rcName(reqs)),
 			Bound: bound,
 			Cfg:   vrt.Config{Horizon: int64(600 * time.Second)},
 			Body: func() {
-				rcExecuteInto(&rcCfg{Reqs: reqs, Faults: faults, KeepSession: cf.keep, AlwaysResub: cf.always, Clean: cf.clean, Manual: strings.HasPrefix(name, "manual.")}, &r)
+				rcExecuteInto(&rcCfg{Reqs: reqs, Faults: faults, KeepSession: cf.keep, AlwaysResub: cf.always, Clean: cf.clean, Manual: strings.HasPrefix(name, "manual."), GrantMax: grant}, &r)
 				c08Oracle(r, cfgName)
 			},
 			Observe: func() uint64 { return r.net.TraceHash() ^ vrt.HashString(r.broker.SubsString()) },
@@ -277,14 +283,38 @@ func runC08(c *Ctx) {
 			if x.kind == "p1" && y.kind == "p1" {
 				continue
 			}
-			for _, cf := range []conf{{false, false, false}, {true, true, false}} {
+			for _, cf := range []conf{{false, false, false, false}, {true, true, false, false}} {
 				run("N2.F2.focus", reqs, cf, vrt.Budget{F: 2})
 			}
 			// the same with an application-owned redial loop around a bare RetryClient
-			run("manual.N2.F2.focus", reqs, conf{false, false, false}, vrt.Budget{F: 2})
+			run("manual.N2.F2.focus", reqs, conf{false, false, false, false}, vrt.Budget{F: 2})
 			if c.Thorough() {
-				run("manual.N2.F2.focus", reqs, conf{true, true, false}, vrt.Budget{F: 2})
-				run("manual.N2.F2.focus", reqs, conf{true, false, false}, vrt.Budget{F: 2})
+				run("manual.N2.F2.focus", reqs, conf{true, true, false, false}, vrt.Budget{F: 2})
+				run("manual.N2.F2.focus", reqs, conf{true, false, false, false}, vrt.Budget{F: 2})
+			}
+		}
+	}
+	// requests parked behind a failed one during an outage (their bookkeeping must follow the order in
+	// which they are finally carried out), then a later connection loss that forces a resubscription
+	parked := [][2]c08Sym{
+		{{"sub", []string{"c:1"}}, {"unsub", []string{"c"}}},
+		{{"unsub", []string{"c"}}, {"sub", []string{"c:1"}}},
+		{{"sub", []string{"c:1"}}, {"sub", []string{"c:2"}}},
+		{{"sub", []string{"c:1", "d:0"}}, {"unsub", []string{"d"}}},
+	}
+	for _, pr := range parked {
+		for _, pre := range []bool{false, true} {
+			var reqs []rcReq
+			if pre {
+				// the filter is already subscribed before the outage
+				reqs = append(reqs, rcReq{Kind: "sub", Subs: []string{"c:0"}, Phase: 'S'})
+			}
+			reqs = append(reqs, rcReq{Kind: "p1", Tag: "m1", Phase: 'S'},
+				rcReq{Kind: pr[0].kind, Subs: pr[0].subs, Phase: 'O'},
+				rcReq{Kind: pr[1].kind, Subs: pr[1].subs, Phase: 'O'},
+				rcReq{Kind: "p1", Tag: "m9", Phase: 'S'})
+			for _, cf := range []conf{{false, false, false, false}, {true, true, false, false}} {
+				run("parked.F2", reqs, cf, vrt.Budget{F: 2})
 			}
 		}
 	}
